@@ -144,6 +144,45 @@ def install_all(readlog=True):
     _INSTALLED = True
 
 
+class ExecutionTimeout(Exception):
+    """One execution of the code under test exceeded the watchdog budget."""
+
+
+class Watchdog:
+    """Wall-clock budget for ONE execution of the code under test (normally a
+    few milliseconds; the budget is 1000x that, so load cannot trip it)."""
+    BUDGET = 30.0
+
+    def __init__(self, seconds=None):
+        self.seconds = seconds or self.BUDGET
+        self.armed = False
+
+    def _fire(self, signum, frame):
+        raise ExecutionTimeout("execution exceeded %.0f s" % self.seconds)
+
+    def __enter__(self):
+        import signal
+        import threading
+        if threading.current_thread() is threading.main_thread():
+            import time
+            self.old = signal.signal(signal.SIGALRM, self._fire)
+            self.outer = signal.setitimer(signal.ITIMER_REAL, self.seconds)[0]
+            self.t0 = time.time()
+            self.armed = True
+        return self
+
+    def __exit__(self, *a):
+        import signal
+        import time
+        if self.armed:
+            signal.setitimer(signal.ITIMER_REAL, 0)
+            signal.signal(signal.SIGALRM, self.old)
+            if self.outer > 0:       # re-arm the enclosing (item-level) timer
+                left = max(self.outer - (time.time() - self.t0), 0.01)
+                signal.setitimer(signal.ITIMER_REAL, left)
+        return False
+
+
 class _Quiet:
     """Silence argparse's usage output on stderr."""
 
@@ -190,7 +229,7 @@ def run_solver(text, argv_tail, env=None, *, na=None, time_limit=None,
     ops = list(history) if history is not None else ["solve"] + list(getters)
     S = None
     try:
-        with _Quiet():
+        with _Quiet(), Watchdog():
             S = Solver(argv)
     except SystemExit as e:
         obs["exc"] = {"stage": "init", "fingerprint": "SystemExit(%r)" % (e.code,),
@@ -201,6 +240,7 @@ def run_solver(text, argv_tail, env=None, *, na=None, time_limit=None,
         ctx.solver_obj = S
         for op in ops:
             try:
+              with Watchdog():
                 if op == "solve":
                     S.solve(timeLimit=time_limit)
                     obs["outputs"].append(("solve", None))
@@ -400,7 +440,7 @@ def run_interleaved(specs, order, env=None):
             obs = {"argv": list(tail), "exc": None, "outputs": [], "solves": []}
             S = None
             try:
-                with _Quiet():
+                with _Quiet(), Watchdog():
                     S = Solver(["-f", path] + list(tail))
             except SystemExit as e:
                 obs["exc"] = {"stage": "init", "fingerprint": "SystemExit(%r)" % (e.code,),
@@ -418,6 +458,7 @@ def run_interleaved(specs, order, env=None):
             before = len(ctx.solves)
             for op in ["solve"] + list(specs[i][2]):
                 try:
+                  with Watchdog():
                     if op == "solve":
                         S.solve()
                         obs["outputs"].append(("solve", None))
